@@ -4,6 +4,7 @@ import RxVerif.Spec.Eval
 import RxVerif.Conc.Observer
 import RxVerif.Conc.ToVec
 import RxVerif.Conc.Queue
+import RxVerif.Spec.CombEval
 open Rx
 
 partial def sexpMentions (a : String) : Sexp → Bool
@@ -26,6 +27,10 @@ def oracleLine (caseLine obsLine : String) : String :=
       fmt "C05" (Oracle.c05 obs unsubAt selfUnsub),
       fmt "C06" (Oracle.c06 obs unsubAt),
       fmt "C07" (Oracle.c07 obs),
+      fmt "C10" (Oracle.c10 obs (steps.map fun s => match s with
+        | .list (.atom "hcomplete" :: _) => true
+        | .list (.atom "herror" :: _) => true
+        | _ => false)),
       fmt "C14" (Oracle.c14 obs),
       fmt "C17" (Oracle.c17 obs)]
   | _, _ => "ORACLE-PARSE-ERROR " ++ obsLine
@@ -114,6 +119,14 @@ partial def loopCosim (model : String) (h out : IO.FS.Stream) : IO Unit := do
   out.putStrLn (cosimLine model l)
   loopCosim model h out
 
+partial def loopMap (f : String → String) (h out : IO.FS.Stream) : IO Unit := do
+  let line ← h.getLine
+  if line.isEmpty then return ()
+  let l := line.trimAscii.toString
+  if l.isEmpty then loopMap f h out else
+  out.putStrLn (f l)
+  loopMap f h out
+
 partial def loopSpec (h out : IO.FS.Stream) : IO Unit := do
   let line ← h.getLine
   if line.isEmpty then return ()
@@ -129,4 +142,6 @@ def main (args : List String) : IO Unit := do
   | ["oracle"] => loopOracle stdin stdout
   | ["spec"] => loopSpec stdin stdout
   | ["cosim", m] => loopCosim m stdin stdout
+  | ["comb"] => loopMap CombEval.combLine stdin stdout
+  | ["subjm"] => loopMap CombEval.subjLine stdin stdout
   | _ => loopRun stdin stdout
